@@ -16,6 +16,7 @@ import IoosQc.Model.Store
 import IoosQc.Model.Fx
 import IoosQc.Model.Defaults
 import IoosQc.Model.Tests
+import IoosQc.Model.Config
 set_option linter.unusedSimpArgs false
 set_option linter.unusedVariables false
 
@@ -312,6 +313,53 @@ theorem C12_pin_default_check_type (c : String) (h : c = Defaults.attenCheckType
     (period : Option Rat) (minObs : Option Nat) (minPeriod : Option Rat) :
     attenuatedTest c inp ts sus fail period minObs minPeriod = attenuatedTest "std" inp ts sus fail period minObs minPeriod := by
   subst h; rfl
+
+/-! ### Layout dispatch of `Config.__init__`: the chain of tests read from the source -/
+
+namespace Pin
+
+/-- One test of the `if … elif … elif … else` chain in `Config.__init__`. -/
+inductive LayoutTest where
+  | contextsKey (k : String)     -- `"k" in self.config`: a list of contexts under `k`
+  | streamsKey (k : String)      -- `"k" in self.config`: the tree is one context
+  | depthGe (n : Nat)            -- `dict_depth(self.config) >= n`: a bare stream-id mapping
+  deriving DecidableEq, Repr
+
+/-- `Config(source)` on the parsed tree for an ARBITRARY chain of layout tests (the final `else` binds the tree to the
+    default stream id). -/
+def configCallsWith (knownMod : String → Bool) (known : String → String → Bool) (defaultKey : String) :
+    List LayoutTest → J → List CallSpec
+  | [], cfg => contextCalls knownMod known (.obj [("streams", .obj [(defaultKey, cfg)])])
+  | .contextsKey k :: rest, cfg =>
+      if cfg.has k then
+        (match cfg.get? k with
+         | some (.arr cs) => cs.flatMap (contextCalls knownMod known)
+         | _ => [])
+      else configCallsWith knownMod known defaultKey rest cfg
+  | .streamsKey k :: rest, cfg =>
+      if cfg.has k then (if k = "streams" then contextCalls knownMod known cfg else [])
+      else configCallsWith knownMod known defaultKey rest cfg
+  | .depthGe n :: rest, cfg =>
+      if n ≤ cfg.depth then contextCalls knownMod known (.obj [("streams", cfg)])
+      else configCallsWith knownMod known defaultKey rest cfg
+
+/-- the chain the model (`configCalls`) and the theorems of C07 are about -/
+def layoutChain : List LayoutTest := [.contextsKey "contexts", .streamsKey "streams", .depthGe 4]
+
+theorem configCallsWith_chain (knownMod : String → Bool) (known : String → String → Bool) (dk : String) (cfg : J) :
+    configCallsWith knownMod known dk layoutChain cfg = configCalls knownMod known dk cfg := by
+  unfold layoutChain configCalls
+  simp only [configCallsWith]
+  split <;> (try rfl)
+
+end Pin
+
+/-- The chain of layout tests read from the source of `Config.__init__` (keys, order, depth threshold) and the default stream
+    key of its signature are the model's: the layout theorems of C07 speak about the dispatch the code performs. -/
+theorem C07_pin_layout (chain : List Pin.LayoutTest) (dk : String) (h : (chain, dk) = (Pin.layoutChain, "_stream"))
+    (knownMod : String → Bool) (known : String → String → Bool) (cfg : J) :
+    Pin.configCallsWith knownMod known dk chain cfg = configCalls knownMod known "_stream" cfg := by
+  cases h; exact Pin.configCallsWith_chain knownMod known "_stream" cfg
 
 theorem C14_pin_default_bbox (b : List Rat) (h : b = Defaults.locationBBox) (lon lat : List V) (r : Option Rat) (hops : List V) :
     locationTest lon lat ⟨true, b⟩ r hops = locationTest lon lat ⟨true, [-180, -90, 180, 90]⟩ r hops := by
